@@ -172,3 +172,19 @@ def tiny_probes(A):
     if absent:
         out += [sorted({A[0], absent[-1]}), sorted({absent[0], A[-1]})]
     return out
+
+
+# ----------------------------------------------------------------------------- many inputs for the multi-way union
+# 5..18 arrays (pairwise / tree reductions, heap-based merges): distinct singletons, chained pairs, identical arrays, empties in between.
+def many_long_lists(tier):
+    out = []
+    top = 18 if tier == "quick" else 34
+    for n in range(5, top + 1):
+        out.append([[10 * i] for i in range(n)])
+        out.append([[10 * (n - i)] for i in range(n)])
+        out.append([[i, i + 1] for i in range(n)])
+        out.append([[7, 9]] * n)
+        out.append([[i] if i % 3 else [] for i in range(n)])
+        out.append([[i, 100 + i, 4294967295 - i] for i in range(n)])
+        out.append([list(range(i, 3 * n, n)) for i in range(n)])
+    return out
